@@ -45,6 +45,9 @@ func main() {
 			in := genCall(r.Fork(), i%5)
 			runCall(w, in, "call/"+in.Via+"/"+in.Callee)
 		}
+		for i := 0; i < nc/20; i++ {
+			runThreadCall(w, genThreadCall(r.Fork()), "call/unresumed-thread")
+		}
 		for i := 0; i < nc/3; i++ {
 			runCopyRet(w, genCopyRet(r.Fork()), "copyret")
 		}
@@ -88,6 +91,10 @@ func exhaustiveApi(w *lib.Writer) {
 func corpus(w *lib.Writer) {
 	// C10-1: a failed protected call from a host function at call depth 8k under MinimizeStackMemory
 	runC101(w)
+	// hunt2 obs-1: calls on a coroutine.create thread nobody has resumed yet
+	for _, via := range []string{"callbyparam", "call", "pcall"} {
+		runThreadCall(w, ThreadCallIn{Kind: "threadcall", Via: via, LuaFn: via != "call", NRet: 1, Protect: true}, "corpus/unresumed-thread")
+	}
 	// obs-1: GetGlobal/SetGlobal after the globals table was replaced
 	for _, how := range []string{"setfenv0", "replace", "thread-setfenv0"} {
 		runGenv(w, GenvIn{Kind: "genv", How: how, V: "5", Shadow: true}, "corpus/globals")
@@ -149,6 +156,10 @@ func replay(w *lib.Writer, path string) {
 		var in ObjIn
 		json.Unmarshal(rp.Input, &in)
 		runObj(w, in, "replay")
+	case "threadcall":
+		var in ThreadCallIn
+		json.Unmarshal(rp.Input, &in)
+		runThreadCall(w, in, "replay")
 	case "genv":
 		var in GenvIn
 		json.Unmarshal(rp.Input, &in)
